@@ -64,3 +64,6 @@ def run(ctx):
     from .. import state as _state
 
     _state.process_state(ctx)  # no result object keeps its per-call data in state shared between instances or calls
+    from . import c14 as _c14
+
+    _c14.gf_algebra(ctx)  # (tools/wiring.py) sums of grid functions held as projections: same dual space or through the coefficients
